@@ -10,6 +10,7 @@ let run_case (toks : string list) : string option =
   | ["cfgmap"; want] -> Some want
   (* a run that cannot start: error returned and visible (no model behind it: the oracle decides) *)
   | ["startup"; _] -> Some "err=1 visible=1 after_clear=1"
+  | ["startuprace"; _] -> Some "lost=0"
   (* the real platform socket: the line lists what select(2) did per call of is_readable (t = timed out with nothing ready, r = one
      descriptor ready, i = interrupted by a signal, e<errno> = failed); the model answers what is_readable returns for each *)
   | ["platform"; _what; sels] ->
